@@ -22,6 +22,10 @@ Driver commands for property C05 (marginal model choice).  One request line → 
                         the column fail with `AssertionError`), `inst` = `ok` | `err:<Kind>`,
                         `fit` = `ok:<type>` | `err`, `gauss` = `ok:<type>` | `err:<Kind>`
                         → `ok <col>=<type>*` | `err <Kind>`   (`fitColumns`)
+* `gmhist <cfg> fits <k> (cols <n> (<col> <d> <inst> <fit> <gauss>)*)*`
+                        a history of `k` fits of ONE object, each frame with its own oracles
+                        → `<r1> | … | <rk> | cfg <cfg>`  with `ri` as for `gm` and the final
+                        configuration of the object   (`gmFitHistory`)
 -/
 namespace CopVerif.Driver
 open CopVerif CopVerif.IO CopVerif.Model
@@ -139,6 +143,27 @@ def parseCols : Nat → List String → Option (List ColOracle)
     some ((col, getInstance, fitO, gauss) :: more)
   | _, _ => none
 
+def showFit : Except Err (List (String × String)) → String
+  | .ok ms => " ".intercalate ("ok" :: ms.map fun (c, m) => c ++ "=" ++ m)
+  | .error e => "err " ++ toString e
+
+def showCfg : DistConfig String String → String
+  | .single d => "single " ++ d
+  | .perColumn m => " ".intercalate ("dict" :: toString m.length :: m.flatMap fun (k, d) => [k, d])
+
+/-- `k` frames `cols <n> …` -/
+def parseFrames : Nat → List String → Option (List (List ColOracle))
+  | 0, [] => some []
+  | 0, _ => none
+  | k + 1, "cols" :: n :: rest => do
+    let n ← n.toNat?
+    if rest.length < 5 * n then none
+    else
+      let frame ← parseCols n (rest.take (5 * n))
+      let more ← parseFrames k (rest.drop (5 * n))
+      some (frame :: more)
+  | _, _ => none
+
 def select (ws : List String) : String :=
   match ws with
   | "sel" :: rest =>
@@ -191,9 +216,20 @@ def select (ws : List String) : String :=
       | some n =>
         match parseCols n more with
         | some cols =>
-          match fitColumns Gen.Select.defaultDistribution cfg cols with
-          | .ok ms => " ".intercalate ("ok" :: ms.map fun (c, m) => c ++ "=" ++ m)
-          | .error e => "err " ++ toString e
+          showFit (fitColumns Gen.Select.defaultDistribution cfg cols)
+        | none => "bad-op"
+      | none => "bad-op"
+    | _ => "bad-op"
+  | "gmhist" :: rest =>
+    match parseCfg rest with
+    | some (cfg, "fits" :: k :: more) =>
+      match k.toNat? with
+      | some k =>
+        match parseFrames k more with
+        | some frames =>
+          let (rs, sFinal) := gmFitHistory Gen.Select.defaultDistribution
+            ({ distribution := cfg, fitted := none } : GMState String String String) frames
+          " | ".intercalate (rs.map showFit ++ ["cfg " ++ showCfg sFinal.distribution])
         | none => "bad-op"
       | none => "bad-op"
     | _ => "bad-op"
